@@ -130,6 +130,8 @@ def run_cfg(ctx, p, cfg):
 
     rule_seeding(ctx, p, cfg, "Z3")
 
+    rolling.rule_reopen(ctx, p, cfg, "Z3b")   # the counter describes the file only if every write lands at its end: the (re)open appends unless it truncates
+
     with ctx.rule("Z4", "what the policy sees", cfg) as r:
         f = p.fn(SIZE_IS_PRE)
         e = f.local_expr(0)
